@@ -314,7 +314,29 @@ func famShutdown(w *World, c *Case, rng *rand.Rand) {
 				t0 := w.VT()
 				stopRet := make(chan time.Duration, 1)
 				go func() { rs.Stop(); stopRet <- w.VT() }()
+				// an RPC started on the still-registered tunnel while Stop is under way (its
+				// new_stream reaches the tunnel server after Stop half-closed, before the peer hangs up)
+				w.Wait()
+				as := &RPCSpec{ID: "afterstop", Method: []string{"Unary", "Bidi"}[late%2], Client: []Op{{K: "invoke", N: 100}}, Handler: []Op{{K: "recv"}, {K: "send", N: 5}, {K: "ret"}}}
+				if as.Method == "Bidi" {
+					as.Client = []Op{{K: "open"}, {K: "send", N: 100}, {K: "close"}, {K: "recvall"}}
+					as.Handler = []Op{{K: "recvall"}, {K: "send", N: 5}, {K: "ret"}}
+				}
+				w.Env.StartRPC(context.Background(), ch, as)
 				w.Advance(time.Second)
+				w.Stat("shutdown_rpc_during_stop", 1)
+				for _, inv := range w.Env.Log.Invocations {
+					if inv.RPC == "afterstop" {
+						w.Violate("C10", "rpc-after-shutdown-invoked-handler", "an RPC started after GracefulStop and Stop were called (while the tunnel was still registered) reached a handler")
+					}
+				}
+				if v := buildViews(w.Env)["afterstop"]; v != nil {
+					if t := clientTerminal(v); t == nil {
+						w.Violate("C10", "late-rpc-hangs", "RPC started during Stop has no terminal result")
+					} else if (t.K == "invoke" && t.Err == "") || (t.K == "recv" && t.EOF) {
+						w.Violate("C10", "rpc-after-shutdown-not-unavailable", "an RPC started after GracefulStop and Stop were called succeeded")
+					}
+				}
 				select {
 				case t1 := <-stopRet:
 					w.Stat("stop_after_gracefulstop", 1)
